@@ -9,6 +9,7 @@ import RsModel.Lemmas.ColdStrip
 import RsModel.Lemmas.ProvRepl
 import RsModel.Lemmas.ProvNest
 import RsModel.Lemmas.ProvWarm
+import RsModel.Lemmas.WarmLinesF
 /-!
 # C04 — mappings point to where the text really came from
 (leaf level: an OriginalSource maps every token to its own position; the composites are tied by correspondence)
@@ -401,5 +402,41 @@ theorem c04_every_history_map_bytes (cons : Text → Option Text) (s : Src) (hk 
               ∧ ∃ tok k0 l0 c0, TokPos T tok l0 c0 k0 ∧ k0 ≤ q ∧ q + d < k0 + tok.length)
             ∨ (∃ r ∈ s.strip.allReplsN, ∃ cl ∈ splitLines r.content, ∃ e, e < cl.length ∧ s.src[i]? = cl[e]?)) :=
   history_map_bytes cons s hk hn σ hc h hs hW hz hasc hsmall1 hsmall2 sm1 h1 calls k hcall
+
+/-- **C04 for every `get_map(columns = false)` of every call history**: CachedSource nodes (none beneath a ReplaceSource) over a tree
+of OriginalSource / raw leaves under ConcatSource; cold caches at the start; any history.  Whatever map `sm2` a
+`get_map(columns = false)` of the history returns: if it resolves generated line `L` to file name `fname` and original line `ol`
+(first mapped segment of the line, through its own `sources`), then the map `sm1` of the cache-free tree resolves `L` alike, and —
+through `sm1`'s own `sources` / `sourcesContent` — that file has content `T` whose line `ol` is a whole line `ln` of `T` at its true
+position, delivered on generated line `L` by the stream.  `c10_every_history_map_lines` ∘ `c03_lines` at name level ∘ `c04_lines_map`. -/
+theorem c04_every_history_lines (cons : Text → Option Text) (s : Src) (hk : s.NoCR) (hn : s.ids.Nodup) (σ : Store) (hc : Cold σ s.ids)
+    (h : s.ModeHypL) (hs : s.SmallFL) (ho : s.strip.OrigTree) (hw : Src.WD cons false s.strip)
+    (hsmall1 : ∀ m ∈ chunkMs (s.strip.stream ⟨false, true⟩ []).1.evs, ∀ o, m.orig = some o → o.src < U31 ∧ o.line < U31)
+    (hsmall2 : ∀ m ∈ chunkMs ((s.warm ⟨false, true⟩).stream ⟨false, true⟩ []).1.evs, ∀ o, m.orig = some o → o.src < U31 ∧ o.line < U31)
+    (sm1 : SMap) (h1 : (getMap s.strip ⟨false, true⟩ []).1 = some sm1)
+    (calls : List Opts) (k : Nat) (hcall : calls[k]? = some ⟨false, true⟩) :
+    ∃ r, (runCalls s calls σ).1[k]? = some r ∧ ∀ sm2, mapOfEvs false r.evs = some sm2 → ∀ L fname ol, 0 < L →
+      LNameM sm2 L = some (fname, ol) →
+      ∃ (si : Nat) (name T ln : Text) (c q : Nat) (m : Mapping), lookupLines (decode sm1.mappings) L = some (si, ol)
+        ∧ fname = some name ∧ sm1.sources[si]? = some name ∧ sm1.sourcesContent[si]? = some T
+        ∧ Ev.chunk (some ln) m ∈ (s.strip.stream ⟨false, false⟩ []).1.evs ∧ m.gl = L ∧ TokPos T ln ol c q := by
+  obtain ⟨r, a1, a2⟩ := history_map_lname s hk hn σ hc h hs hsmall1 hsmall2 calls k hcall
+  refine ⟨r, a1, fun sm2 hsm2 L fname ol hL hres => ?_⟩
+  have hsn := Src.strip_nc s
+  obtain ⟨hn', _, _⟩ := nc_facts _ hsn
+  have e1 := getMap_lname s.strip (Src.strip_modeHypL s h) hn' [] [] (cold_nil _) (cold_nil _) true hsmall1 sm1 h1 L hL
+  have e2 := a2 sm2 hsm2 L hL
+  rw [e2, ← e1] at hres
+  unfold LNameM at hres
+  cases hq : lookupLines (decode sm1.mappings) L with
+  | none => rw [hq] at hres; cases hres
+  | some p =>
+    obtain ⟨si, ol'⟩ := p
+    rw [hq] at hres
+    simp only [Option.map_some, Option.some.injEq, Prod.mk.injEq] at hres
+    obtain ⟨hf, hol⟩ := hres
+    subst hol
+    obtain ⟨_, name, T, ln, c, q, m, b1, b2, b3, b4, b5⟩ := c04_lines_map cons s.strip ho hw true hsmall1 sm1 h1 L si ol' hL hq
+    exact ⟨si, name, T, ln, c, q, m, rfl, by rw [← hf, b1], b1, b2, b3, b4, b5⟩
 
 end Rs
